@@ -72,6 +72,7 @@ type SharedMultiColReaders struct {
 	numReaders      int
 	numOpenFDs      int64
 	columnErrorMap  map[string]error // column name -> error; Track errors while reading the column files for the shared readers
+	closed          bool             // Close() already ran; callers defer Close() even when init failed and closed it
 }
 
 /*
@@ -191,6 +192,7 @@ func InitSharedMultiColumnReaders(segKey string, colNames map[string]bool,
 
 	err := fileutils.GLOBAL_FD_LIMITER.TryAcquireWithBackoff(maxOpenFds, 10, fmt.Sprintf("InitSharedMultiColumnReaders.qid=%d", qid))
 	if err != nil {
+		sharedReader.numOpenFDs = 0 // nothing was acquired, so Close() must not release anything
 		return sharedReader, fmt.Errorf("qid=%d, InitSharedMultiColumnReaders: Failed to acquire resources to be able to open %+v FDs. Error: %+v", qid, maxOpenFds, err)
 	}
 	csgFileToColNameMap := make(map[string]string)
@@ -266,6 +268,11 @@ func InitSharedMultiColumnReaders(segKey string, colNames map[string]bool,
 
 // Returns all buffers to the pools, closes all FDs shared across multi readers, and updates global semaphore
 func (scr *SharedMultiColReaders) Close() {
+	if scr.closed {
+		return
+	}
+	scr.closed = true
+
 	for _, multiReader := range scr.MultiColReaders {
 		if multiReader != nil {
 			multiReader.returnBuffers()
